@@ -85,6 +85,7 @@ func runConcCase(c concCase) (string, error) {
 	if f := factoryKind(c.Fac, 1000, mk, &nfac); f != nil {
 		opts = append(opts, router.WithFactory(f))
 	}
+	orderOptions(opts, c.Fb+"/"+c.Fac+"/"+c.Names)
 	r := router.NewRouter(opts...)
 	pool := map[string]bool{}
 	for _, e := range splitList(c.Reg0, ",") {
